@@ -33,7 +33,8 @@ SameEntry(a, b) == a.b2 = b.b2 /\ a.cached = b.cached /\ BufOf(a) = BufOf(b)
 
 (* ---- expiry with interval clocks (C20) --------------------------------------- *)
 CertainlyExpired(c, e) == c.t1 + cfg.ttl < e.t0
-CertainlyLive(c, e)    == c.t0 + cfg.ttl >= e.t1
+\* (an expiry that is not a whole number of milliseconds is recorded as a lower and an upper bound)
+CertainlyLive(c, e)    == c.t0 + cfg.ttlLo >= e.t1
 PreStates(k, e) ==
   IF k \notin DOMAIN cache THEN { EmptyEntry }
   ELSE IF CertainlyExpired(cache[k], e) THEN { EmptyEntry }
@@ -206,7 +207,7 @@ Violated(e, pre, x, r) ==
 OthersOk(e, k) ==
   loose \/
   /\ \A q \in SnapKeys(e.snap) \ { k } : q \in DOMAIN cache /\ SameEntry(SnapEntry(e.snap, q), cache[q].e)
-  /\ \A q \in DOMAIN cache \ { k } : (CertainlyLive(cache[q], e) /\ cache[q].t0 + cfg.ttl >= e.t1 + 50) => q \in SnapKeys(e.snap)
+  /\ \A q \in DOMAIN cache \ { k } : (CertainlyLive(cache[q], e) /\ cache[q].t0 + cfg.ttlLo >= e.t1 + 50) => q \in SnapKeys(e.snap)
   /\ \A q \in DOMAIN cache \ { k } : CertainlyExpired(cache[q], e) => q \notin SnapKeys(e.snap)
 
 (* ---- known finding D6b: a duplicated final Block1 block reaches the application again ---- *)
@@ -233,7 +234,7 @@ Touch(k, entry, e, d1) ==
                               ELSE IF k \in DOMAIN cache THEN cache[k].done1 ELSE None]
      ELSE cache[q]]
 
-Init == /\ l = 1 /\ cache = << >> /\ cfg = [M |-> 1152, ttl |-> 120000] /\ live = FALSE /\ loose = FALSE
+Init == /\ l = 1 /\ cache = << >> /\ cfg = [M |-> 1152, ttl |-> 120000, ttlLo |-> 120000] /\ live = FALSE /\ loose = FALSE
         /\ kfs = 0 /\ kftotal = 0 /\ bad = << >> /\ done = FALSE /\ drift = 0
 
 RejectEv(props, why) == bad' = AddBad(bad, BadEntry(l, props, why))
@@ -299,7 +300,7 @@ Step ==
   /\ l <= NRec /\ l' = l + 1 /\ UNCHANGED done
   /\ LET e == Rec[l] IN
      IF e.op = "reset"
-     THEN /\ cache' = << >> /\ cfg' = [M |-> e.M, ttl |-> e.ttl] /\ live' = TRUE /\ loose' = FALSE /\ kfs' = 0
+     THEN /\ cache' = << >> /\ cfg' = [M |-> e.M, ttl |-> e.ttl, ttlLo |-> IF HasField(e, "ttl_lo") THEN e.ttl_lo ELSE e.ttl] /\ live' = TRUE /\ loose' = FALSE /\ kfs' = 0
           /\ UNCHANGED << bad, drift, kftotal >>
      ELSE IF e.op = "sleep" THEN UNCHANGED << cache, cfg, live, loose, kfs, kftotal, bad, drift >>
      ELSE IF e.op = "unlogged" THEN loose' = TRUE /\ UNCHANGED << cache, cfg, live, kfs, kftotal, bad, drift >>
